@@ -418,10 +418,17 @@ int main(int argc, char *argv[]) {
     execute_get_ret_value(func, &ops);
   }
 
+  int ret = EXIT_SUCCESS;
   if (ops.create_bin != NONE) {
-    return create_binary_file(al, ops.create_bin, ops.param_file);
+    ret = create_binary_file(al, ops.create_bin, ops.param_file);
   }
-  return EXIT_SUCCESS;
+  // what was printed (-p, -b, -r) is requested output as well: report it if
+  // stdout did not take it (closed pipe, full disk behind a redirection)
+  if (fflush(stdout) == EOF || ferror(stdout)) {
+    fprintf(stderr, "failed to write to stdout\n");
+    ret = EXIT_FAILURE;
+  }
+  return ret;
 }
 
 static void parse_opt(assemblyline_t al, int argc, char **argv,
